@@ -55,7 +55,7 @@ struct AppTokenWorld : World
     } else {
       limit = r.chance(1, 2) ? 255 : r.chance(3, 4) ? 4095 : 65535; // region size - 1 (a 256-byte region is exhausted quickly: tokens right below the limit are in use)
     }
-    p.cfg = { layer, limit };
+    p.cfg = { layer, limit, (int64_t)r.chance(1, 3) };
     int n = (int)r.range(3, thorough ? 60 : 40);
     std::vector<unsigned> w;
     if (layer == 0)
@@ -277,6 +277,10 @@ struct AppTokenWorld : World
     int64_t limit = p.cfg.size() > 1 ? p.cfg[1] : 4095;
     Sbx::cfg = Sbx::Config();
     Sbx::cfg.size = limit >= 65535 ? 65536 : limit <= 255 ? 256 : 4096;
+    if (is_sim && p.cfg.size() > 2 && p.cfg[2]) {
+      Sbx::cfg.location_shift = 64; // the backend's reported memory location is not the address of representation 0
+      c.probe("backend_location_is_not_address_of_representation_0");
+    }
     limit = is_sim ? (int64_t)Sbx::cfg.size - 1 : INT64_MAX; // noop: the whole address space
     run_begin(&c);
     {
